@@ -133,6 +133,11 @@ pub struct Model {
     pub index_names: BTreeSet<String>,
     /// set when the model had to be re-derived from an observation instead of from the op
     pub derived: bool,
+    /// the op's effect on the index list is not modelled (drop/cast of an indexed column):
+    /// take the next observation
+    pub indices_unknown: bool,
+    /// legacy storage cannot tell "" from NULL in nullable string columns
+    pub legacy: bool,
 }
 
 impl Model {
@@ -161,6 +166,8 @@ impl Model {
                 .collect(),
             index_names: s.index_names.iter().filter(|n| !n.starts_with("__")).cloned().collect(),
             derived: true,
+            indices_unknown: false,
+            legacy: false,
         }
     }
     pub fn col(&self, name: &str) -> Option<usize> {
@@ -179,7 +186,23 @@ impl Model {
                 obs.rows.len()
             ));
         }
-        if obs.rows != self.rows {
+        let norm = |m: &BTreeMap<i64, Row>| -> BTreeMap<i64, Row> {
+            m.iter()
+                .map(|(k, r)| {
+                    (
+                        *k,
+                        r.iter()
+                            .map(|c| match c {
+                                Cell::Str(s) if s.is_empty() => Cell::Null,
+                                c => c.clone(),
+                            })
+                            .collect(),
+                    )
+                })
+                .collect()
+        };
+        let rows_equal = if self.legacy { norm(&obs.rows) == norm(&self.rows) } else { obs.rows == self.rows };
+        if !rows_equal {
             let lost: Vec<_> = self.rows.keys().filter(|k| !obs.rows.contains_key(k)).take(5).collect();
             let extra: Vec<_> = obs.rows.keys().filter(|k| !self.rows.contains_key(k)).take(5).collect();
             let changed: Vec<_> = self
@@ -208,7 +231,7 @@ impl Model {
         if obs.config != self.config {
             return Some(format!("config: model {:?} observed {:?}", self.config, obs.config));
         }
-        if obs.index_names != self.index_names {
+        if !self.indices_unknown && obs.index_names != self.index_names {
             return Some(format!(
                 "indices: model {:?} observed {:?}",
                 self.index_names, obs.index_names
@@ -501,6 +524,8 @@ pub struct StepRec {
     pub outcome: Outcome,
     pub new_versions: Vec<(Loc, u64)>,
     pub removed_versions: Vec<(Loc, u64)>,
+    /// new versions whose first read failed: (lineage, version, error)
+    pub unreadable: Vec<(Loc, u64, String)>,
     pub log_from: usize,
     pub log_to: usize,
     pub extra: Extra,
@@ -520,6 +545,8 @@ pub struct Lineage {
     pub models: BTreeMap<u64, Model>,
     pub snaps: BTreeMap<u64, Snapshot>,
     pub removed: BTreeMap<u64, Snapshot>,
+    /// versions that are listed but could not be read when first seen (version -> error)
+    pub unreadable: BTreeMap<u64, String>,
     /// where this lineage was cut from (branch / clone)
     pub parent: Option<(Loc, u64)>,
 }
@@ -584,6 +611,13 @@ pub struct Hist {
     pub counter: u64,
     pub next_actor: usize,
     pub snapshots_taken: u64,
+}
+
+pub fn panic_msg(p: &Box<dyn std::any::Any + Send>) -> String {
+    p.downcast_ref::<String>()
+        .cloned()
+        .or_else(|| p.downcast_ref::<&str>().map(|s| s.to_string()))
+        .unwrap_or_else(|| "panic".into())
 }
 
 macro_rules! lance_try {
@@ -707,6 +741,7 @@ impl Hist {
             Ok(Ok(ds)) => {
                 let mut model = Model {
                     cols: batch.schema().fields().iter().map(|f| f.name().clone()).collect(),
+                    legacy: self.cfg.storage == LanceFileVersion::Legacy,
                     ..Default::default()
                 };
                 for (id, r) in ids.iter().zip(batch_to_rows(&batch)) {
@@ -724,6 +759,7 @@ impl Hist {
                         models: BTreeMap::new(),
                         snaps: BTreeMap::new(),
                         removed: BTreeMap::new(),
+                        unreadable: BTreeMap::new(),
                         parent: None,
                     },
                 );
@@ -738,6 +774,7 @@ impl Hist {
             outcome,
             new_versions: vec![],
             removed_versions: vec![],
+            unreadable: vec![],
             log_from,
             log_to: 0,
             extra: Extra::None,
@@ -750,14 +787,18 @@ impl Hist {
 
     /// Open (loc, version) through a new handle: fresh Session or the history's shared one.
     pub async fn open_at(&self, loc: &Loc, version: Option<u64>, fresh: bool) -> lance::Result<Dataset> {
-        let mut b = lance::dataset::builder::DatasetBuilder::from_uri(&loc.table)
+        let b = lance::dataset::builder::DatasetBuilder::from_uri(&loc.table)
             .with_read_params(self.env.read_params(fresh));
         match (&loc.branch, version) {
-            (Some(br), v) => b = b.with_branch(br, v),
-            (None, Some(v)) => b = b.with_version(v),
-            (None, None) => {}
+            (Some(br), v) => {
+                // (DatasetBuilder::with_branch(b, Some(v)) first loads version v of the *root*,
+                // which need not exist; open the root and check out the branch instead.)
+                let root = b.load().await?;
+                root.checkout_version((Some(br.clone()), v)).await
+            }
+            (None, Some(v)) => b.with_version(v).load().await,
+            (None, None) => b.load().await,
         }
-        b.load().await
     }
 
     pub fn live_locs(&self) -> Vec<Loc> {
@@ -836,12 +877,7 @@ impl Hist {
         let (outcome, extra) = match res {
             Ok(x) => x,
             Err(p) => {
-                let msg = p
-                    .downcast_ref::<String>()
-                    .cloned()
-                    .or_else(|| p.downcast_ref::<&str>().map(|s| s.to_string()))
-                    .unwrap_or_else(|| "panic".into());
-                (Outcome::Panicked(msg), Extra::None)
+                (Outcome::Panicked(panic_msg(&p)), Extra::None)
             }
         };
         let mut rec = StepRec {
@@ -852,6 +888,7 @@ impl Hist {
             outcome,
             new_versions: vec![],
             removed_versions: vec![],
+            unreadable: vec![],
             log_from,
             log_to: 0,
             extra,
@@ -928,7 +965,7 @@ impl Hist {
             }
             let latest = lin.head.manifest().version;
             for v in listed {
-                if lin.snaps.contains_key(&v) || lin.removed.contains_key(&v) {
+                if lin.snaps.contains_key(&v) || lin.removed.contains_key(&v) || lin.unreadable.contains_key(&v) {
                     continue;
                 }
                 let ds = if v == latest {
@@ -949,19 +986,23 @@ impl Hist {
                         continue;
                     }
                 };
-                match take_snapshot(&ds, &raw).await {
+                let snap = match AssertUnwindSafe(take_snapshot(&ds, &raw)).catch_unwind().await {
+                    Ok(r) => r,
+                    Err(p) => Err(format!("panic: {}", panic_msg(&p))),
+                };
+                match snap {
                     Ok(s) => {
                         self.snapshots_taken += 1;
                         lin.snaps.insert(v, s);
                         rec.new_versions.push((loc.clone(), v));
                     }
-                    Err(e) => self.problems.push(format!(
-                        "step {}: snapshot of new version {} of {} failed: {}",
-                        rec.idx,
-                        v,
-                        loc.label(),
-                        e
-                    )),
+                    Err(e) => {
+                        if !lin.unreadable.contains_key(&v) {
+                            lin.unreadable.insert(v, e.clone());
+                            rec.new_versions.push((loc.clone(), v));
+                            rec.unreadable.push((loc.clone(), v, e));
+                        }
+                    }
                 }
             }
             // model vs latest
@@ -979,7 +1020,13 @@ impl Hist {
                             d
                         ));
                     }
+                    let legacy = lin.model.legacy;
                     lin.model = Model::from_snapshot(s);
+                    lin.model.legacy = legacy;
+                }
+                if lin.model.indices_unknown {
+                    lin.model.index_names = s.index_names.iter().filter(|n| !n.starts_with("__")).cloned().collect();
+                    lin.model.indices_unknown = false;
                 }
                 lin.models.entry(latest).or_insert_with(|| lin.model.clone());
             }
@@ -1353,8 +1400,7 @@ impl Hist {
         }
         // indices on the dropped column go away; names are "<col-at-creation>_idx", so resync from
         // the observation instead of guessing
-        lin.model.index_names = BTreeSet::new();
-        lin.model.derived = true;
+        lin.model.indices_unknown = true;
         (Outcome::Ok, Extra::None)
     }
 
@@ -1404,8 +1450,7 @@ impl Hist {
             }
         } else {
             // a cast drops indices on the column
-            lin.model.index_names = BTreeSet::new();
-            lin.model.derived = true;
+            lin.model.indices_unknown = true;
         }
         (Outcome::Ok, Extra::None)
     }
@@ -1549,6 +1594,7 @@ impl Hist {
                 models: BTreeMap::new(),
                 snaps: BTreeMap::new(),
                 removed: BTreeMap::new(),
+                unreadable: BTreeMap::new(),
                 parent: Some((loc.clone(), v)),
             },
         );
@@ -1640,6 +1686,7 @@ impl Hist {
                 models: BTreeMap::new(),
                 snaps: BTreeMap::new(),
                 removed: BTreeMap::new(),
+                unreadable: BTreeMap::new(),
                 parent: Some((loc.clone(), v)),
             },
         );
